@@ -639,7 +639,12 @@ class SymArray:
     # ---- reductions
     def _reduce(self, f, axis=None, dtype=None, keepdims=False):
         if axis is None:
-            return f(self.flat_values())
+            r = f(self.flat_values())
+            if dtype is None and self.dtype.kind in 'iu' and self.dtype.itemsize < 8 and sc.JIT_DEPTH == 0 and isinstance(r, SI) \
+                    and as_const(r) is None:
+                # min / max / ptp of a narrow integer array outside compiled code is a NumPy scalar of that dtype: later scalar arithmetic wraps
+                return sc.SIT.typed(r.t, self.dtype)
+            return r
         axis = axis if axis >= 0 else axis + self.ndim
         moved = _np.moveaxis(self._idx, axis, -1)
         outshape = moved.shape[:-1]
